@@ -583,8 +583,12 @@ static void update_invloop(struct context_data *ctx, struct channel_data *xc)
 		}
 	}
 
-	if (len >= 0 && xc->invloop.count >= 128) {
+	if (xc->invloop.count >= 128) {
 		xc->invloop.count = 0;
+
+		if (len < 0) {
+			return;
+		}
 
 		if (++xc->invloop.pos >= len) {
 			xc->invloop.pos = 0;
